@@ -340,23 +340,99 @@ func c02Logout(r *core.Run, idx int, rng *rand.Rand) {
 	}
 }
 
+// c02Registration keeps ONE provider alive while the requester's consumer services are re-registered:
+// what is persisted and where error replies go must follow the current registration.
+func c02Registration(r *core.Run, idx int, rng *rand.Rand) {
+	const wl = "registration_changes"
+	e := env.Static(env.Opts{})
+	d := stdSP(0)
+	d.AuthnRequestsSigned = ""
+	version := 0
+	reg := func() {
+		d2 := *d
+		b := []string{spsim.BindPost, spsim.BindRedirect}[rng.Intn(2)]
+		d2.ACS = []spsim.ACS{
+			{Binding: b, Location: fmt.Sprintf("https://sp0.example/acs/v%d", version), Index: "1"},
+			{Binding: spsim.BindPost, Location: fmt.Sprintf("https://sp0.example/acs/v%d/alt", version), Index: "2"},
+		}
+		if rng.Intn(2) == 0 { // order and indexes change as well
+			d2.ACS[0], d2.ACS[1] = d2.ACS[1], d2.ACS[0]
+			d2.ACS[0].Index, d2.ACS[1].Index = "5", "3"
+		}
+		d.ACS = d2.ACS
+		mustRegister(e.W, &d2, "appA")
+	}
+	reg()
+	for k := 0; k < 8; k++ {
+		if rng.Intn(3) == 0 {
+			version++
+			reg()
+		}
+		a := validAuthn(rng, d)
+		a.ProtocolBinding = []string{"", spsim.BindPost, spsim.BindRedirect, spsim.BindArtifact}[rng.Intn(4)]
+		fail := rng.Intn(3) == 0
+		if fail {
+			a.Destination = "https://wrong.example/SSO"
+		}
+		s := ssoSend{Binding: []string{"redirect", "post"}[rng.Intn(2)], XML: a.XML(rng), HasRelay: true, Relay: "MKrelay"}
+		call, _ := s.do(e)
+		class := fmt.Sprintf("registration|version=%d|step=%d|fail=%v", version, k, fail)
+		desc := map[string]any{"step": k, "current_acs": d.ACS, "requested_binding": a.ProtocolBinding}
+		r.Eval(fmt.Sprintf("%s|%d", class, idx))
+		r.Count("registration_sequence_requests", 1)
+		viol := func(clause, reason string) {
+			r.Violate(core.Violation{Clause: clause, Class: class, Reason: reason, Workload: wl, Index: idx, Case: desc, Observed: call.Describe()})
+		}
+		if call.Panic != "" {
+			viol("panic", call.Panic)
+			return
+		}
+		cur := func(url, binding string) bool {
+			for _, x := range d.ACS {
+				if x.Location == url && (binding == "" || x.Binding == binding) {
+					return true
+				}
+			}
+			return false
+		}
+		if ev := call.First("CreateAuthRequest"); ev != nil && len(ev.Args) >= 2 && !cur(ev.Args[0], ev.Args[1]) {
+			viol("persisted_pair_not_current_registration", fmt.Sprintf("CreateAuthRequest(%q, %q) is not an entry of the current registration (version %d)", ev.Args[0], ev.Args[1], version))
+		}
+		dd := call.D
+		if dd.Kind == "form" || (dd.Kind == "redirect" && dd.Status == 302) {
+			ok := false
+			for _, x := range d.ACS {
+				if deliveryTargetOK(dd, x.Location) {
+					ok = true
+				}
+			}
+			if !ok {
+				viol("target_not_current_registration", fmt.Sprintf("reply delivered to %q, current registration (version %d) has %v", dd.Target, version, d.ACS))
+			}
+			r.Count("registration_targets_checked", 1)
+		}
+	}
+}
+
 func init() {
 	register(&Prop{
 		ID: "C02", Level: "exploration", DeathIsViolation: true,
 		TimeoutQuick: 5 * time.Minute, TimeoutThorough: 30 * time.Minute,
 		Build: func(c *Ctx) []core.Workload {
 			r := c.Run
-			r.Rule = "SSO requests naming foreign AssertionConsumerServiceURL / Index / ProtocolBinding, a URL as RelayState and extra parameters named like target overrides, against SP metadata with 1-5 consumer services (any binding/index/isDefault mix, URLs with query strings and URL/HTML/XML special characters), succeeding or failing at several steps; callbacks for stored requests with hostile consumer URLs and override parameters; logout requests with foreign Destination against 0-3 SingleLogoutService entries. Monitor: the (URL, binding) pair handed to CreateAuthRequest is one registered entry; every form action / Location is a registered URL of the issuer's SP (form: 'only-encodes' relation, redirect: exact after non-ASCII escaping) with the matching binding, resp. the stored URL at the callback, resp. the first SingleLogoutService; Destination / Recipient equal it; no canary host evil-*.example ever appears as target or Destination. Distinct = (endpoint, failure kind, transport, list size, reply kind)."
+			r.Rule = "SSO requests naming foreign AssertionConsumerServiceURL / Index / ProtocolBinding, a URL as RelayState and extra parameters named like target overrides, against SP metadata with 1-5 consumer services (any binding/index/isDefault mix, URLs with query strings and URL/HTML/XML special characters), succeeding or failing at several steps; callbacks for stored requests with hostile consumer URLs and override parameters; logout requests with foreign Destination against 0-3 SingleLogoutService entries. Monitor: the (URL, binding) pair handed to CreateAuthRequest is one registered entry; every form action / Location is a registered URL of the issuer's SP (form: 'only-encodes' relation, redirect: exact after non-ASCII escaping) with the matching binding, resp. the stored URL at the callback, resp. the first SingleLogoutService; Destination / Recipient equal it; no canary host evil-*.example ever appears as target or Destination. A further workload keeps ONE provider alive while the requester's consumer services are re-registered between requests. Distinct = (endpoint, failure kind, transport, list size, reply kind)."
 			r.Assume("registered endpoint URLs are absolute http(s) URLs without fragment")
 			r.Require("sso_persist_attempts", 50)
 			r.Require("sso_error_replies_delivered_to_sp", 50)
 			r.Require("callback_replies_form", 50)
 			r.Require("callback_replies_redirect", 50)
 			r.Require("logout_replies_form", 50)
+			r.Require("registration_targets_checked", 100)
 			return []core.Workload{
 				{Name: "sso_targets", N: c.Pick(900, 9000), Fn: c02SSO},
 				{Name: "callback_targets", N: c.Pick(400, 4000), Fn: c02Callback},
 				{Name: "logout_targets", N: c.Pick(400, 4000), Fn: c02Logout},
+				{Name: "registration_changes", N: c.Pick(150, 1500), Fn: c02Registration},
 			}
 		},
 	})
